@@ -2,6 +2,7 @@ package props
 
 import (
 	"bytes"
+	"cosmossdk.io/math"
 	"crypto/sha256"
 	"encoding/json"
 	"fmt"
@@ -383,7 +384,15 @@ func runL2Script(script []c18Op) (trace string, maxLeaving int, oracleUpdates in
 				num, sq := accInfo(l2, users[op.A%4])
 				data = signTx(l2, []sdk.Msg{banktypes.NewMsgSend(users[op.A%4].Addr, users[(op.A+1)%4].Addr, sdk.NewCoins(coinOf("stake", 1)))}, []cryptotypes.PrivKey{users[op.A%4].Priv}, []uint64{num}, []uint64{sq}, henv.L2ChainID)
 			}
-			emit(op, l2.Deliver(opchildtypes.NewMsgFinalizeTokenDeposit(exec.Str, users[0].Str, to, coinOf(denoms[op.B%2], op.C), seq, 7, bases[op.B%2], data)))
+			amount := coinOf(denoms[op.B%2], op.C)
+			if op.S == "huge" {
+				// 2^255 units: the second such deposit of a denom overflows the supply inside the bank module (a panic that
+				// is not "out of gas"), the deposit is bounced with the panic as its reason
+				amount.Amount = math.NewIntFromBigInt(new(big.Int).Lsh(big.NewInt(1), 255))
+				to = users[op.A%4].Str
+				data = nil
+			}
+			emit(op, l2.Deliver(opchildtypes.NewMsgFinalizeTokenDeposit(exec.Str, users[0].Str, to, amount, seq, 7, bases[op.B%2], data)))
 		case "withdraw":
 			emit(op, l2.Deliver(opchildtypes.NewMsgInitiateTokenWithdrawal(users[op.A%4].Str, users[op.B%4].Str, coinOf(denoms[op.B%2], op.C%20+1))))
 		case "oracle":
@@ -461,6 +470,9 @@ func genL2Script(rt *rapid.T) []c18Op {
 		if k == "deposit" && rapid.IntRange(0, 3).Draw(rt, "hook") == 0 {
 			op.S = "hook"
 		}
+		if k == "deposit" && rapid.IntRange(0, 7).Draw(rt, "huge") == 0 {
+			op.S = "huge"
+		}
 		s = append(s, op)
 	}
 	return s
@@ -504,7 +516,22 @@ func TestC18Rapid(t *testing.T) {
 			bridges := 0
 			for i := 0; i < 3; i++ {
 				c18Noise = i == 2
-				tr, nb := runL1Script(script)
+				var tr string
+				var nb int
+				run := func() { tr, nb = runL1Script(script) }
+				switch i {
+				case 1:
+					saved := time.Local
+					time.Local = time.FixedZone("UTC+9", 9*3600)
+					run()
+					time.Local = saved
+				case 2:
+					done := make(chan struct{})
+					go func() { defer close(done); run() }()
+					<-done
+				default:
+					run()
+				}
 				c18Noise = false
 				traces, bridges = append(traces, tr), nb
 			}
@@ -525,7 +552,24 @@ func TestC18Rapid(t *testing.T) {
 			leaving, oracle := 0, 0
 			for i := 0; i < 3; i++ {
 				c18Noise = i == 2
-				tr, l, o := runL2Script(script)
+				var tr string
+				var l, o int
+				run := func() { tr, l, o = runL2Script(script) }
+				switch i {
+				case 1:
+					// a node whose operator lives in another time zone
+					saved := time.Local
+					time.Local = time.FixedZone("UTC+9", 9*3600)
+					run()
+					time.Local = saved
+				case 2:
+					// a node whose block execution runs on another goroutine
+					done := make(chan struct{})
+					go func() { defer close(done); run() }()
+					<-done
+				default:
+					run()
+				}
 				c18Noise = false
 				traces, leaving, oracle = append(traces, tr), l, o
 			}
